@@ -485,11 +485,16 @@ func (af *AdaptationField) SetHasTransportPrivateData(value bool) error {
 		return err
 	}
 	delta := 1 * af.bitDelta(5, 0x02, value)
+	if delta == 0 {
+		return nil // nothing changes, in particular the length byte is kept
+	}
 	err := af.resizeAF(af.transportPrivateDataStart(), delta)
 	if err != nil {
 		return err
 	}
-	af[af.transportPrivateDataStart()] = 0 // zero length by default
+	if value {
+		af[af.transportPrivateDataStart()] = 0 // zero length by default
+	}
 	af.setBit(5, 0x02, value)
 	return nil
 }
@@ -543,11 +548,16 @@ func (af *AdaptationField) SetHasAdaptationFieldExtension(value bool) error {
 		return err
 	}
 	delta := 1 * af.bitDelta(5, 0x01, value)
+	if delta == 0 {
+		return nil // nothing changes, in particular the length byte is kept
+	}
 	err := af.resizeAF(af.adaptationExtensionStart(), delta)
 	if err != nil {
 		return err
 	}
-	af[af.adaptationExtensionStart()] = 0
+	if value {
+		af[af.adaptationExtensionStart()] = 0 // zero length by default
+	}
 	af.setBit(5, 0x01, value)
 	return nil
 }
